@@ -284,6 +284,80 @@ var Flows = []Flow{
 	}},
 }
 
+func init() {
+	// several calls on the SAME entity inside one slot, in a tape-chosen order: interactions between
+	// calls that are received back to back against the same contract state
+	Flows = append(Flows,
+		Flow{"token-burst", func(gn *Gen, n *simnode.Node) *nom.AccountBlock {
+			t := gn.W.R.T
+			if len(gn.Tokens) == 0 {
+				return nil
+			}
+			z := gn.Tokens[t.Choose(len(gn.Tokens))]
+			ti := gn.tokenInfo(n, z)
+			if ti == nil || gn.W.Keys[ti.Owner] == nil {
+				return nil
+			}
+			var last *nom.AccountBlock
+			k := 2 + t.Choose(3)
+			for i := 0; i < k; i++ {
+				switch t.Choose(4) {
+				case 0:
+					last = gn.do(n, "token.Mint", ti.Owner, types.TokenContract, types.ZnnTokenStandard, big.NewInt(0),
+						definition.ABIToken.PackMethodPanic(definition.MintMethodName, z, big.NewInt(int64(1+t.Choose(1000))), gn.user()))
+				case 1:
+					last = gn.do(n, "token.UpdateToken", ti.Owner, types.TokenContract, types.ZnnTokenStandard, big.NewInt(0),
+						definition.ABIToken.PackMethodPanic(definition.UpdateTokenMethodName, z, ti.Owner, ti.IsMintable || t.Bool(), t.Bool()))
+				case 2:
+					h := gn.user()
+					if t.Bool() {
+						h = ti.Owner
+					}
+					if bal := gn.balance(n, h, z); bal.Sign() > 0 {
+						last = gn.do(n, "token.Burn", h, types.TokenContract, z, big.NewInt(1+int64(t.Choose(int(minInt64(bal.Int64(), 1000))))), definition.ABIToken.PackMethodPanic(definition.BurnMethodName))
+					}
+				case 3:
+					if bal := gn.balance(n, ti.Owner, z); bal.Sign() > 0 {
+						last = gn.do(n, "transfer", ti.Owner, gn.user(), z, big.NewInt(1), nil)
+					}
+				}
+			}
+			gn.W.R.Probe("token-burst")
+			return last
+		}},
+		Flow{"pillar-burst", func(gn *Gen, n *simnode.Node) *nom.AccountBlock {
+			t := gn.W.R.T
+			name := gn.PillarNames[t.Choose(len(gn.PillarNames))]
+			owner, ok := gn.NameOwner[name]
+			if !ok {
+				return nil
+			}
+			var last *nom.AccountBlock
+			for i := 0; i < 2+t.Choose(3); i++ {
+				switch t.Choose(4) {
+				case 0:
+					last = gn.do(n, "pillar.UpdatePillar", owner, types.PillarContract, types.ZnnTokenStandard, big.NewInt(0),
+						definition.ABIPillars.PackMethodPanic(definition.UpdatePillarMethodName, name, gn.user(), gn.user(), uint8(t.Choose(101)), uint8(t.Choose(101))))
+				case 1:
+					last = gn.do(n, "pillar.Delegate", gn.user(), types.PillarContract, types.ZnnTokenStandard, big.NewInt(0), definition.ABIPillars.PackMethodPanic(definition.DelegateMethodName, name))
+				case 2:
+					last = gn.do(n, "pillar.Revoke", owner, types.PillarContract, types.ZnnTokenStandard, big.NewInt(0), definition.ABIPillars.PackMethodPanic(definition.RevokeMethodName, name))
+				case 3:
+					last = gn.do(n, "common.CollectReward", owner, types.PillarContract, types.ZnnTokenStandard, big.NewInt(0), definition.ABICommon.PackMethodPanic(definition.CollectRewardMethodName))
+				}
+			}
+			return last
+		}},
+	)
+}
+
+func minInt64(a, b int64) int64 {
+	if a < b {
+		return a
+	}
+	return b
+}
+
 // richUser picks one of the accounts that can afford pillar/sentinel collateral.
 func (gn *Gen) richUser() types.Address {
 	rich := []types.Address{g.Pillar4.Address, g.Pillar5.Address, g.Pillar6.Address, g.Pillar7.Address, g.Pillar8.Address, g.Spork.Address, g.User1.Address}
